@@ -1,1 +1,3 @@
-// generated list of further harness modules
+// further harness modules
+pub(crate) mod util;
+mod h_alloc;
